@@ -1,22 +1,21 @@
 #!/bin/bash
 # usage: tools/tryseed.sh <patch.diff> [ID ...]   (default: all checks, quick tier)
-# Applies a seeded change to /repo, runs the given checks, and always restores /repo afterwards.
+# Applies a seeded change to a scratch worktree of /repo (never to /repo itself), runs the given checks against
+# it (VERIF_REPO), and removes the worktree afterwards.
 # Prints one line per check: DETECTED (exit 1 with VIOLATION), MISSED (exit 0), ENGINE-ERROR (exit 2).
 set -u
 PATCH="$(readlink -f "$1")"; shift
 IDS="$*"
 [ -z "$IDS" ] && IDS="$(python3 -c "import json;print(' '.join(c['property_id'] for c in json.load(open('/verif/MANIFEST.json'))['checks']))")"
-cd /repo || exit 2
-if [ -n "$(git status --porcelain)" ]; then echo "tryseed: /repo is not clean" >&2; exit 2; fi
-BRANCH="$(git branch --show-current)"
-restore() { git -C /repo checkout -q -- . ; git -C /repo clean -fdq; [ -n "${BASE:-}" ] && git -C /repo checkout -q "$BRANCH"; }
+W="$(mktemp -d /tmp/tryseed.XXXXXX)"
+restore() { git -C /repo worktree remove --force "$W/repo" 2>/dev/null; rm -rf "$W"; }
 trap restore EXIT
 # BASE=<commit>: the seed was written against an older tree (before a later fix: commit touched the same lines)
-[ -n "${BASE:-}" ] && { git checkout -q --detach "$BASE" || exit 2; }
-git apply "$PATCH" || { echo "tryseed: patch does not apply" >&2; exit 2; }
+git -C /repo worktree add -q --detach "$W/repo" "${BASE:-HEAD}" || exit 2
+git -C "$W/repo" apply "$PATCH" || { echo "tryseed: patch does not apply" >&2; exit 2; }
 TIER="${TIER:-quick}"
 for id in $IDS; do
-  out="$(cd /verif && ./run.sh "$id" "$TIER" 2>&1)"; rc=$?
+  out="$(cd /verif && VERIF_REPO="$W/repo" ./run.sh "$id" "$TIER" 2>&1)"; rc=$?
   nv=$(printf '%s\n' "$out" | grep -c '^VIOLATION')
   case $rc in
     0) if printf '%s\n' "$out" | grep -q 'exhaustive=false'; then echo "$id MISSED (but the run was cut by its budget: exhaustive=false)"; else echo "$id MISSED"; fi ;;
